@@ -18,7 +18,7 @@ def pfl (s : String) : Option Float := if s.length != 16 then none else (hexToNa
 
 def cmpRE (name : String) (impl : Float) (m : RE) : Option String :=
   let d := Float.abs (impl - m.v)
-  if (impl.isNaN && m.v.isNaN) || impl == m.v || d ≤ 4 * m.e || m.e.isNaN then none
+  if (impl.isNaN && m.v.isNaN) || impl == m.v || d ≤ 4 * m.e || (m.e.isNaN && !m.v.isNaN && !impl.isNaN) then none
   else some s!"{name}: impl={impl} model={m.v} diff={d} bound={m.e}"
 
 open GeodInvSeries in
@@ -30,6 +30,17 @@ def handleSeries (op : String) (args res : List String) : Option Verdict :=
       match cmpRE "k" k (astroid (RE.exact x) (RE.exact y)) with
       | none => .ok
       | some m => .bad s!"Geodesic::Astroid differs from Model/GeodInvSeries: {m}"
+    | _, _ => .bad "parse"
+  | "invstart" => some <|
+    match args.mapM pfl, res.mapM pfl with
+    | some [a, f, sbet1, cbet1, sbet2, cbet2, lam12],
+      some [tiny, eps0, dn1, dn2, slam12, clam12, sig12, salp1, calp1, salp2, calp2, dnm] =>
+      let e := RE.exact
+      let g := GeodLine.geodesic (e a) (e f) (e tiny) (e eps0)
+      let o := inverseStart g (e eps0) (e sbet1) (e cbet1) (e dn1) (e sbet2) (e cbet2) (e dn2) (e lam12) (e slam12) (e clam12)
+      let bads := [cmpRE "sig12" sig12 o.sig12, cmpRE "salp1" salp1 o.salp1, cmpRE "calp1" calp1 o.calp1, cmpRE "salp2" salp2 o.salp2,
+                   cmpRE "calp2" calp2 o.calp2, cmpRE "dnm" dnm o.dnm].filterMap id
+      if bads.isEmpty then .ok else .bad s!"Geodesic::InverseStart differs from Model/GeodInvSeries: {bads}"
     | _, _ => .bad "parse"
   | "lambda12" => some <|
     match args.mapM pfl, res.mapM pfl with
